@@ -1,4 +1,189 @@
-//! dedup: not built yet.
-pub fn run(args: &vh_common::Args) {
-    vh_common::unknown(args)
+//! Dedup (C24): the real `p2panda_sync::DeduplicationBuffer<Hash>` against spec/Dedup.
+//!
+//! replay: every insertion sequence exported by TLC (`gen.cfg`) is executed on a fresh buffer of the
+//!         given capacity; after every call the result, the exact content (asked through
+//!         `contains` for every item of the alphabet) and the sizes of the two internal
+//!         collections (cfg hook `verif_sizes`) are compared with the state TLC computed.
+//! record: seeded random long call sequences (capacities 1..=16, alphabets <= 20 items) on the
+//!         real buffer, one trace event per call, validated by TLC against Trace_Dedup.tla.
+use std::collections::BTreeSet;
+
+use p2panda_core::Hash;
+use p2panda_sync::DeduplicationBuffer;
+use vh_common::{Args, Outcome, Rng, TraceWriter, Value, catch, json, read_ndjson, unknown};
+
+pub fn run(args: &Args) {
+    match args.mode.as_str() {
+        "replay" => replay(args),
+        "record" => record(args),
+        _ => unknown(args),
+    }
+}
+
+fn item(name: &str) -> Hash {
+    Hash::digest(name.as_bytes())
+}
+
+/// The items of `alphabet` the buffer currently reports as contained.
+fn content(buf: &DeduplicationBuffer<Hash>, alphabet: &[String]) -> BTreeSet<String> {
+    alphabet.iter().filter(|x| buf.contains(&item(x))).cloned().collect()
+}
+
+fn str_set(v: &Value) -> BTreeSet<String> {
+    v.as_array()
+        .expect("array")
+        .iter()
+        .map(|x| x.as_str().expect("string").to_string())
+        .collect()
+}
+
+fn replay(args: &Args) {
+    let behaviours = read_ndjson(args.input.as_ref().expect("--in"));
+    let mut out = Outcome::new(
+        args,
+        "every TLC-enumerated insertion sequence executed on a fresh real DeduplicationBuffer<Hash>; result, exact content \
+         (contains() over the alphabet) and ring/set sizes compared after every call; non-trivial = the sequence contains \
+         a duplicate report or an eviction; distinct by (capacity, sequence)",
+    );
+    // alphabet of the whole input file: contains() is asked for every item ever mentioned
+    let mut alphabet: BTreeSet<String> = BTreeSet::new();
+    for b in &behaviours {
+        for s in b["steps"].as_array().expect("steps") {
+            alphabet.insert(s["x"].as_str().expect("x").to_string());
+        }
+    }
+    let alphabet: Vec<String> = alphabet.into_iter().collect();
+
+    for b in &behaviours {
+        out.eval();
+        let cap = b["cap"].as_u64().expect("cap") as usize;
+        let steps = b["steps"].as_array().expect("steps");
+        let mut nontrivial = false;
+        let verdict = catch(|| {
+            let mut buf = DeduplicationBuffer::<Hash>::new(cap);
+            for (k, s) in steps.iter().enumerate() {
+                let x = s["x"].as_str().expect("x");
+                let want_res = s["res"].as_str().expect("res") == "true";
+                let got_res = match s["op"].as_str().expect("op") {
+                    "insert" => buf.insert(item(x)),
+                    "contains" => buf.contains(&item(x)),
+                    other => panic!("unknown op {other}"),
+                };
+                if got_res != want_res {
+                    return Some((
+                        "duplicate-report-differs-from-spec",
+                        format!("call {k} {}({x}) returned {got_res}, spec says {want_res}", s["op"]),
+                    ));
+                }
+                let (len, setlen, _ring_cap) = buf.verif_sizes();
+                if len > cap || setlen > cap {
+                    return Some((
+                        "holds-more-than-capacity",
+                        format!("after call {k}: ring holds {len}, set holds {setlen}, capacity {cap}"),
+                    ));
+                }
+                let want_has = str_set(&s["has"]);
+                let got_has = content(&buf, &alphabet);
+                if got_has != want_has {
+                    return Some((
+                        "content-differs-from-spec",
+                        format!("after call {k} {}({x}): buffer remembers {got_has:?}, spec says {want_has:?}", s["op"]),
+                    ));
+                }
+                if len as u64 != s["len"].as_u64().expect("len") || setlen as u64 != s["setlen"].as_u64().expect("setlen") {
+                    return Some((
+                        "sizes-differ-from-spec",
+                        format!("after call {k}: ring {len} / set {setlen}, spec says {} / {}", s["len"], s["setlen"]),
+                    ));
+                }
+            }
+            None
+        });
+        for s in steps {
+            if s["op"] == "insert" && s["res"] == "false" {
+                nontrivial = true;
+            }
+        }
+        if steps.iter().filter(|s| s["op"] == "insert" && s["res"] == "true").count() > cap {
+            nontrivial = true;
+        }
+        if nontrivial {
+            out.mark_distinct(format!("{cap}|{}", steps.iter().map(|s| format!("{}{}", &s["op"].as_str().unwrap()[..1], s["x"].as_str().unwrap())).collect::<Vec<_>>().join(",")));
+        }
+        match verdict {
+            Ok(None) => out.sample(b.clone()),
+            Ok(Some((sig, detail))) => out.violation("C24", sig, detail, b.clone()),
+            Err(p) => out.violation("C24", "dedup-panics", p, b.clone()),
+        }
+    }
+    out.write(args);
+}
+
+fn record(args: &Args) {
+    let mut rng = Rng::new(args.seed);
+    let n = if args.n > 0 { args.n } else { 100 };
+    let mut trace = TraceWriter::create(args.out.as_ref().expect("--out"));
+    let mut out = Outcome::new(
+        args,
+        "seeded random call sequences (capacity 1..=16, alphabet capacity..=20 items, 20..=200 calls, 80% insert / 20% contains) \
+         on the real DeduplicationBuffer<Hash>; one event per call with result, content and sizes; distinct by (run, call)",
+    );
+    'runs: for run in 0..n {
+        let cap = match rng.below(4) {
+            0 => 1,
+            1 => rng.range(2, 4),
+            _ => rng.range(1, 16),
+        } as usize;
+        // alphabets just above the capacity produce the interesting mix of duplicates and evictions
+        let alpha_n = (cap as u64 + rng.range(0, 6)).clamp(2, 20);
+        let alphabet: Vec<String> = (0..alpha_n).map(|k| format!("i{k}")).collect();
+        let calls = rng.range(20, 200);
+        trace.event(json!({"ev": "Reset", "run": run, "cap": cap}));
+        let mut buf = match catch(|| DeduplicationBuffer::<Hash>::new(cap)) {
+            Ok(b) => b,
+            Err(p) => {
+                out.violation("C24", "dedup-panics", p, json!({"cap": cap}));
+                continue;
+            }
+        };
+        let mut script = Vec::new();
+        for call in 0..calls {
+            let x = rng.pick(&alphabet).clone();
+            let insert = rng.chance(4, 5);
+            script.push(json!([if insert { "insert" } else { "contains" }, x]));
+            out.eval();
+            let r = catch(|| if insert { buf.insert(item(&x)) } else { buf.contains(&item(&x)) });
+            let res = match r {
+                Ok(r) => r,
+                Err(p) => {
+                    out.violation("C24", "dedup-panics", p, json!({"cap": cap, "calls": script}));
+                    continue 'runs;
+                }
+            };
+            let (len, setlen, _) = buf.verif_sizes();
+            if len > cap || setlen > cap {
+                // reported here as well (the trace spec's invariant would catch it too)
+                out.violation(
+                    "C24",
+                    "holds-more-than-capacity",
+                    format!("after call {call}: ring holds {len}, set holds {setlen}, capacity {cap}"),
+                    json!({"cap": cap, "calls": script}),
+                );
+            }
+            out.mark_distinct(format!("{run}:{call}"));
+            let has: Vec<String> = content(&buf, &alphabet).into_iter().collect();
+            let ev = json!({
+                "ev": if insert { "Insert" } else { "Contains" },
+                "x": x, "res": if res { "true" } else { "false" },
+                "has": has, "len": len, "setlen": setlen,
+            });
+            if call == 0 {
+                out.sample(ev.clone());
+            }
+            trace.event(ev);
+        }
+    }
+    let (events, runs) = trace.finish();
+    out.set_trace(events, runs);
+    out.write(args);
 }
